@@ -4,6 +4,7 @@ package main
 
 import (
 	"fmt"
+	"os"
 	"go/ast"
 	"go/token"
 	"go/types"
@@ -238,10 +239,75 @@ func checkC11(w *World, r *Report) {
 					}
 				}
 			}
-			if g == nil {
-				return // the probed candidate (range element) or a peer-requested codec
-			}
 			if recvNamed(fnObj(fn)) != cdc {
+				return
+			}
+			if g == nil {
+				// the probed candidate: it may be committed only where its probe did not report an error
+				probeM := methodOf(cdc, "EncodingTestUpstream")
+				key := fmt.Sprintf("candidate:%s#%d", ssaFuncKey(fn), ord)
+				ord++
+				bad := ""
+				npaths := 0
+				enumPaths(fn, nil, nil, func(x ssa.Instruction) bool { return x == in }, func(e pathExit) {
+					if e.Stop == nil {
+						return
+					}
+					npaths++
+					// only facts established after the candidate was (last) picked count: earlier ones belong to a previous candidate
+					since := 0
+					for _, root := range provenance(st.Val, provOpts{}) {
+						if ri, ok := root.(ssa.Instruction); ok {
+							for i, bb := range e.State.Blocks {
+								if bb == ri.Block() && i > since {
+									since = i
+								}
+							}
+						}
+					}
+					inCurrent := func(bb *ssa.BasicBlock) bool {
+						for i := since; i < len(e.State.Blocks); i++ {
+							if e.State.Blocks[i] == bb {
+								return true
+							}
+						}
+						return false
+					}
+					for v, t := range e.State.Facts {
+						b, ok := v.(*ssa.BinOp)
+						if !ok || (b.Op != token.EQL && b.Op != token.NEQ) {
+							continue
+						}
+						if !inCurrent(b.Block()) {
+							continue
+						}
+						for _, side := range []ssa.Value{b.X, b.Y} {
+							c, ok := side.(*ssa.Call)
+							if !ok || sCallee(c) != probeM {
+								continue
+							}
+							other := b.X
+							if other == side {
+								other = b.Y
+							}
+							// err == <sentinel> true, or err != nil true: the probe failed on this path
+							if (b.Op == token.EQL && t && !isConstNil(other)) || (b.Op == token.NEQ && t && isConstNil(other)) {
+								bad = "the codec under test is committed on a path where its own probe reported an error (e.g. the case-swap edge): the handshake then reports success with a codec that the path mangles"
+								if os.Getenv("SACHECK_DEBUG") != "" {
+									var bl []int
+									for _, bb := range e.State.Blocks {
+										bl = append(bl, bb.Index)
+									}
+									fmt.Fprintf(os.Stderr, "DEBUG R11.5 fact %s = %v (block %d) path %v\n", v.String(), t, v.(*ssa.BinOp).Block().Index, bl)
+								}
+							}
+						}
+					}
+				})
+				if npaths > 0 {
+					nfb++
+					r.Check(bad == "", "R11.5", key, w.Pos(st.Pos()), "the probed candidate is committed only where its probe reported no error", bad)
+				}
 				return
 			}
 			nfb++
